@@ -25,7 +25,7 @@ type c12Case struct {
 func init() {
 	engine.Register(&engine.Check{
 		ID: "C12", Level: "exploration",
-		Rule:        "every ordered pair of non-degenerate directed segments on the 6x6 (quick) / 7x7 (thorough) integer grid (all argument orders and directions, all 16 envelope-membership combinations of the collinear branch), each also scaled by 2^20 and translated by (2^20,-2^19); plus a T-junction/touching lattice on rough integer coordinates up to 2^21 (an endpoint exactly on the other segment, all 8 role/direction variants; the endpoint must be returned bit-identical); plus +-1 ulp perturbations of touching / T-junction / collinear configurations with non-trivial mantissas (classification only). Oracle: exact rational classification none/point/overlap; endpoint intersections returned bit-identical; proper crossings within 8 ulps of (|x|+|y|+scale); overlap endpoints exact; NonRobustLineIntersector.HasIntersection = exact on grid inputs. distinct_nontrivial = distinct pairs whose segments intersect or whose envelopes overlap Also: ~1000 exactly axis-parallel segments crossed properly by rough segments on grids [-2^k,2^k], k=17..20 (8 role/direction variants); long segments crossing at an angle of ~1e-6 on the 2^20 grid (8 symmetries x 8 role/direction variants, position within 8 ulps), and nearly coincident segments (each ordinate -2..2 ulps off) reaching the fallback paths (classification; reported point within rounding of both envelopes).",
+		Rule:        "every ordered pair of non-degenerate directed segments on the 6x6 (quick) / 7x7 (thorough) integer grid (all argument orders and directions, all 16 envelope-membership combinations of the collinear branch), each also scaled by 2^20 and translated by (2^20,-2^19); plus a T-junction/touching lattice on rough integer coordinates up to 2^21 (an endpoint exactly on the other segment, all 8 role/direction variants; the endpoint must be returned bit-identical); plus +-1 ulp perturbations of touching / T-junction / collinear configurations with non-trivial mantissas (classification only). Oracle: exact rational classification none/point/overlap; endpoint intersections returned bit-identical; proper crossings within 8 ulps of (|x|+|y|+scale); overlap endpoints exact; NonRobustLineIntersector.HasIntersection = exact on grid inputs. distinct_nontrivial = distinct pairs whose segments intersect or whose envelopes overlap Also: lean T-junction probes (~3*10^6, classification only) over the near-collinear float families of C10; ~1000 exactly axis-parallel segments crossed properly by rough segments on grids [-2^k,2^k], k=17..20 (8 role/direction variants); long segments crossing at an angle of ~1e-6 on the 2^20 grid (8 symmetries x 8 role/direction variants, position within 8 ulps), and nearly coincident segments (each ordinate -2..2 ulps off) reaching the fallback paths (classification; reported point within rounding of both envelopes).",
 		Run:         c12Run,
 		Replay:      func(c *engine.Ctx, kind string, raw json.RawMessage) { c12Exec(c, decodeCase[c12Case](raw)) },
 		Assumptions: []string{"segments of non-zero length; grid inputs make every intermediate of the homogeneous-coordinate computation exact, so only the final division and re-translation round"},
@@ -139,7 +139,62 @@ func envOverlap(a1, a2, b1, b2 ref.P2) bool {
 		math.Min(a1.Y, a2.Y) <= math.Max(b1.Y, b2.Y) && math.Min(b1.Y, b2.Y) <= math.Max(a1.Y, a2.Y)
 }
 
+// exactSegmentsIntersect: the textbook test with exact orientation signs.
+func exactSegmentsIntersect(a, b, p, q [2]float64) bool {
+	o1 := exactSign3Small(a[0], a[1], b[0], b[1], p[0], p[1])
+	o2 := exactSign3Small(a[0], a[1], b[0], b[1], q[0], q[1])
+	o3 := exactSign3Small(p[0], p[1], q[0], q[1], a[0], a[1])
+	o4 := exactSign3Small(p[0], p[1], q[0], q[1], b[0], b[1])
+	if o1*o2 < 0 && o3*o4 < 0 {
+		return true
+	}
+	in := func(s, e, x [2]float64) bool {
+		return x[0] >= math.Min(s[0], e[0]) && x[0] <= math.Max(s[0], e[0]) && x[1] >= math.Min(s[1], e[1]) && x[1] <= math.Max(s[1], e[1])
+	}
+	return (o1 == 0 && in(a, b, p)) || (o2 == 0 && in(a, b, q)) || (o3 == 0 && in(p, q, a)) || (o4 == 0 && in(p, q, b))
+}
+
+// c12LeanT: a T-junction probe for one near-collinear float triple: segment AB against the segment
+// from P to a point well off the line (to the left of AB), in both argument orders; classification
+// only (does the robust intersector see an intersection), against the exact answer. A disagreement
+// goes through c12Exec.
+func c12LeanT(c *engine.Ctx, a, b, p [2]float64) {
+	q := [2]float64{p[0] - 0.37*(b[1]-a[1]) + 0.011, p[1] + 0.37*(b[0]-a[0]) - 0.007}
+	if a == b || p == q {
+		return
+	}
+	want := exactSegmentsIntersect(a, b, p, q)
+	for order := 0; order < 2; order++ {
+		s1, e1, s2, e2 := a, b, p, q
+		if order == 1 {
+			s1, e1, s2, e2 = q, p, b, a
+		}
+		var got bool
+		if pn, _ := engine.Guard(func() {
+			res := lineintersector.LineIntersectsLine(lineintersector.RobustLineIntersector{}, geom.Coord{s1[0], s1[1]}, geom.Coord{e1[0], e1[1]}, geom.Coord{s2[0], s2[1]}, geom.Coord{e2[0], e2[1]})
+			got = res.HasIntersection()
+		}); pn != nil || got != want {
+			c12Exec(c, c12Case{Pts: []ref.F{ref.F(s1[0]), ref.F(s1[1]), ref.F(e1[0]), ref.F(e1[1]), ref.F(s2[0]), ref.F(s2[1]), ref.F(e2[0]), ref.F(e2[1])}, Class: true})
+			continue
+		}
+		c.Count("evaluations", 1)
+		c.Count("lean_t_junction_probes", 1)
+	}
+}
+
 func c12Run(c *engine.Ctx) {
+	// classification over moderate-magnitude floats within a few ulps of a T-junction: the
+	// near-collinear families of C10 (float-line lattice, mixed-magnitude collinear triples,
+	// segments through the coordinate origin)
+	if c.Thorough() {
+		sweepFloatLines(c, 128, func(a, b, p [2]float64) { c12LeanT(c, a, b, p) })
+		sweepMixed(c, 20, 200, func(a, b, p [2]float64) { c12LeanT(c, a, b, p) })
+		sweepThroughOrigin(c, 2048, func(a, b, p [2]float64) { c12LeanT(c, a, b, p) })
+	} else {
+		sweepFloatLines(c, 32, func(a, b, p [2]float64) { c12LeanT(c, a, b, p) })
+		sweepMixed(c, 20, 60, func(a, b, p [2]float64) { c12LeanT(c, a, b, p) })
+		sweepThroughOrigin(c, 256, func(a, b, p [2]float64) { c12LeanT(c, a, b, p) })
+	}
 	n := 6
 	if c.Thorough() {
 		n = 7
